@@ -8,7 +8,7 @@
   2. `foldl_append2_toList`: text accumulated by a `foldl` of `acc ++ f i ++ g i`
   3. `getElem?_flatMap_range`: entry `i * k + j` of a concatenation of `n` blocks of length `k`
   4. `Fmt.readToks` (`Fmt.read` on the token list), `read_eq_readToks`,
-     `readToks_nodes`, `readToks_vars_size`, `readToks_row_size`, `readToks_vars`
+     `readToks_nodes`, `readToks_vars_size`, `readToks_rows`, `readToks_vars` (loop invariant: `place_inv`)
 -/
 import Ohsl.Model.Fmt
 set_option linter.unusedSectionVars false
